@@ -89,6 +89,17 @@ def _limits(mem_gb):
     return f
 
 
+_CHILDREN = set()      # process-group ids of running tools, killed when the driver itself is terminated (no orphan solvers)
+
+
+def kill_children(*_a):
+    for pid in list(_CHILDREN):
+        try:
+            os.killpg(pid, 9)
+        except Exception:
+            pass
+
+
 def run(cmd, timeout, mem_gb=24, cwd=None, env=None):
     """returns (rc, stdout, stderr, seconds); rc = 'timeout' on timeout"""
     t0 = time.time()
@@ -99,16 +110,20 @@ def run(cmd, timeout, mem_gb=24, cwd=None, env=None):
     try:
         p = subprocess.Popen(cmd, stdout=subprocess.PIPE, stderr=subprocess.PIPE, cwd=cwd, env=e,
                              preexec_fn=_limits(mem_gb), text=True, errors="replace")
+        _CHILDREN.add(p.pid)
         try:
-            out, err = p.communicate(timeout=timeout)
-        except subprocess.TimeoutExpired:
             try:
-                os.killpg(p.pid, 9)
-            except Exception:
-                pass
-            out, err = p.communicate()
-            return "timeout", out, err, time.time() - t0
-        return p.returncode, out, err, time.time() - t0
+                out, err = p.communicate(timeout=timeout)
+            except subprocess.TimeoutExpired:
+                try:
+                    os.killpg(p.pid, 9)
+                except Exception:
+                    pass
+                out, err = p.communicate()
+                return "timeout", out, err, time.time() - t0
+            return p.returncode, out, err, time.time() - t0
+        finally:
+            _CHILDREN.discard(p.pid)
     except FileNotFoundError as ex:
         return "notfound", "", str(ex), time.time() - t0
 
